@@ -30,7 +30,7 @@ fn prov_programs(quick: bool) -> Vec<GenProg> {
     let b = Bounds { quick: true };
     let _ = quick;
     let mut out = vec![];
-    for g in all_families(&b, &["F2", "F3", "F4", "F8"]) {
+    for g in all_families(&b, &["F1", "F2", "F3", "F4", "F8"]) {
         // drop the final query clause when it merely reads an IDB; keep programs whose clauses have no aggregates/arithmetic
         let mut cl = g.prog.clauses.clone();
         let qc = cl.last().unwrap().clone();
@@ -51,7 +51,9 @@ fn prov_programs(quick: bool) -> Vec<GenProg> {
     out.retain(|g| seen.insert(g.prog.clone()));
     if quick {
         // deterministic sub-family: every 3rd program of the large families
-        out = out.into_iter().enumerate().filter(|(i, g)| g.family == "F3" || g.family == "F4neg" || i % 3 == 0).map(|(_, g)| g).collect();
+        // (atoms that repeat a variable are kept in full: they are where unification can go wrong)
+        let repeats = |g: &GenProg| g.prog.clauses.iter().any(|c| c.body.iter().any(|l| matches!(l, Lit::Pos(a) | Lit::Neg(a) if a.args.iter().enumerate().any(|(i, t)| matches!(t, Var(_)) && a.args[..i].contains(t)))));
+        out = out.into_iter().enumerate().filter(|(i, g)| g.family == "F3" || g.family == "F4neg" || repeats(g) || i % 3 == 0).map(|(_, g)| g).collect();
     }
     out
 }
@@ -476,15 +478,19 @@ pub fn run(args: &Args) -> i32 {
     let budget = if run.quick() { 8 } else { 40 };
     run.put("programs", json!(progs.len()));
     run.set_rule(match prop.as_str() {
-        "C21" => "programs of families F2 (union heads), F3 (stratified negation), F4 (recursion, recursion + negation), F8 (repeated sub-plans) registered as persistent rules x small EDBs; `.why ?rel(..)` through the Handler for every derived relation; EVERY returned proof tree is checked by an independent proof checker: root concludes an answer tuple; every rule node's rule_id is a clause of the program, its head under the bindings is the conclusion, its positive body atoms are matched one-to-one by children's conclusions, negated atoms by negation leaves whose instance has no matching fact in the reference model, comparisons hold, fact leaves are stored facts. Truncated roots are C22's business. non-trivial = distinct (program, EDB, relation) with at least one answer",
+        "C21" => "programs of families F1 (conjunctive clauses with constants, wildcards, repeated variables), F2 (union heads), F3 (stratified negation), F4 (recursion, recursion + negation), F8 (repeated sub-plans) registered as persistent rules x small EDBs; `.why ?rel(..)` through the Handler for every derived relation; EVERY returned proof tree is checked by an independent proof checker: root concludes an answer tuple; every rule node's rule_id is a clause of the program, its head under the bindings is the conclusion, its positive body atoms are matched one-to-one by children's conclusions, negated atoms by negation leaves whose instance has no matching fact in the reference model, comparisons hold, fact leaves are stored facts. Truncated roots are C22's business. non-trivial = distinct (program, EDB, relation) with at least one answer",
         "C22" => "same runs as C21: for every tuple that `?rel(..)` returns, `.why` must return a tree whose root concludes that tuple, that contains no truncated node (all reference derivations here are far below the depth limit of 50) and that passes the C21 checker. non-trivial = distinct (program, EDB, relation) with at least one answer",
-        _ => "programs of F2, F3, F4, F8 as persistent rules x small EDBs x EVERY candidate tuple over the value domain for every derived relation: `.why_not rel(t)`; if t is not in the reference model every clause of rel must be reported with a blocker that genuinely holds (head does not unify / the named pattern is an instance of the named body atom under the head bindings and real matches of the earlier atoms, and no fact of the model matches it / no valuation satisfies the comparisons / the negated atom's reported matching tuple is in the model); if t IS in the model the answer must not report every clause of rel as blocked. non-trivial = distinct (program, EDB, relation, tuple)",
+        _ => "programs of F1, F2, F3, F4, F8 as persistent rules x small EDBs x EVERY candidate tuple over the value domain for every derived relation: `.why_not rel(t)`; if t is not in the reference model every clause of rel must be reported with a blocker that genuinely holds (head does not unify / the named pattern is an instance of the named body atom under the head bindings and real matches of the earlier atoms, and no fact of the model matches it / no valuation satisfies the comparisons / the negated atom's reported matching tuple is in the model); if t IS in the model the answer must not report every clause of rel as blocked. non-trivial = distinct (program, EDB, relation, tuple)",
     });
     run.assume("reference model R1; mutual-recursion programs are excluded (their answers are C01's known finding)");
     let dom: Vec<i64> = vec![1, 2, 3];
     run.par_for(progs.len(), threads(), |pi, l| {
         let p = &progs[pi].prog;
         let idbs: BTreeSet<String> = p.heads();
+        // a clause that repeats a variable inside an atom needs a relation with two tuples (one that matches
+        // loosely and one that matches exactly) before a unification slip can show
+        let repeats = p.clauses.iter().any(|c| c.body.iter().any(|l| matches!(l, Lit::Pos(a) | Lit::Neg(a) if a.args.iter().enumerate().any(|(i, t)| matches!(t, Var(_)) && a.args[..i].contains(t)))));
+        let budget = if repeats { if prop == "C23" { 48 } else { 200 } } else { budget };
         for edb in edbs_for(p, &b, budget) {
             let Ok(model) = eval_int_model(p, &edb) else { continue };
             let r = catch_unwind(AssertUnwindSafe(|| -> Result<(), String> {
